@@ -27,7 +27,7 @@ pub fn check(tier: Tier) -> Check {
         // then silence / end-of-stream (whatever the reader does in steps of a round size)
         Part::new("C03/pow2", json!({"max_k": tier.pick(21, 23)}), 0, 300),
         // long bursts: many small packets without a pause (a yield after N items must come with a wakeup)
-        Part::new("C03/burst", json!({"max": tier.pick(1025, 16385)}), 0, 120),
+        Part::new("C03/burst", json!({"max": tier.pick(8193, 65537)}), 0, 120),
         // what the reader does with its buffer after a big packet
         Part::new("C03/after-big", json!({"sizes": if tier == Tier::Quick { vec![9000, 70_000, 1_100_000] } else { vec![9000, 70_000, 300_000, 1_100_000, 2_100_000] }}), 0, 120),
         Part::new("C03/aligned", json!({"shifts": tier.pick(48, 80), "wide": tier.pick(1100, 2200), "all_cuts": tier == Tier::Thorough}), 0, tier.pick(50, 900)),
@@ -120,15 +120,15 @@ fn small_packets(sub_id: u32, op_pub: usize, op_sub: usize, sys: &Sys) -> Vec<SP
 
 /// N small packets back to back - in one read, in 512-byte reads, or in reads of one packet each that
 /// are all available at once -, optionally followed by end-of-stream: every one is handled, in order.
-fn burst(name: String, params: Value) -> Scenario {
+pub fn burst(prop: &'static str, name: String, params: Value) -> Scenario {
     let max = params["max"].as_u64().unwrap_or(1025) as usize;
     Box::new(move |chz, ex| {
-        let ns: Vec<usize> = [33usize, 65, 129, 257, 1025, 4097, 16385].into_iter().filter(|n| *n <= max).collect();
+        let ns: Vec<usize> = [33usize, 65, 129, 257, 1025, 4097, 8193, 16385, 65537].into_iter().filter(|n| *n <= max).collect();
         let n = ns[chz.choose(ns.len())];
         let kind = chz.choose(3);
         let chunking = chz.choose(3);
         let eof = chz.choose(2) == 1;
-        let mut sys = Sys::new("C03", &name, chz);
+        let mut sys = Sys::new(prop, &name, chz);
         sys.params = params.clone();
         let Some(sid) = setup(&mut sys) else {
             return sys.report(ex, &[]);
@@ -422,7 +422,7 @@ pub fn scenario(name: &str, params: &Value) -> Scenario {
         return after_big("C03", name, params);
     }
     if name == "C03/burst" {
-        return burst(name, params);
+        return burst("C03", name, params);
     }
     if name == "C03/handover" {
         return handover(name, params);
